@@ -788,11 +788,10 @@ public:
     /// a new string.
     constexpr auto replace(size_type pos, size_type count, basic_inplace_string const& str) -> basic_inplace_string&
     {
-        TETL_PRECONDITION(pos < size());
-        TETL_PRECONDITION(pos + count < size());
+        TETL_PRECONDITION(pos <= size());
 
         auto* f = data() + pos;
-        auto* l = data() + pos + count;
+        auto* l = f + etl::min(count, size() - pos);
         detail::str_replace(f, l, str.begin(), str.end());
         return *this;
     }
@@ -812,24 +811,23 @@ public:
     replace(size_type pos, size_type count, basic_inplace_string const& str, size_type pos2, size_type count2 = npos)
         -> basic_inplace_string&
     {
-        TETL_PRECONDITION(pos < size());
-        TETL_PRECONDITION(pos2 < str.size());
+        TETL_PRECONDITION(pos <= size());
+        TETL_PRECONDITION(pos2 <= str.size());
 
-        auto* f        = data() + etl::min(pos, size());
-        auto* l        = data() + etl::min(pos + count, size());
-        auto const* sf = etl::next(str.begin(), static_cast<etl::ptrdiff_t>(etl::min(pos2, str.size())));
-        auto const* sl = etl::next(str.begin(), static_cast<etl::ptrdiff_t>(etl::min(pos2 + count2, str.size())));
+        auto* f        = data() + pos;
+        auto* l        = f + etl::min(count, size() - pos);
+        auto const* sf = str.begin() + pos2;
+        auto const* sl = sf + etl::min(count2, str.size() - pos2);
         detail::str_replace(f, l, sf, sl);
         return *this;
     }
 
     constexpr auto replace(size_type pos, size_type count, Char const* str, size_type count2) -> basic_inplace_string&
     {
-        TETL_PRECONDITION(pos < size());
-        TETL_PRECONDITION(pos + count < size());
+        TETL_PRECONDITION(pos <= size());
 
-        auto* f = next(data(), min(pos, size()));
-        auto* l = next(data(), min(pos + count, size()));
+        auto* f = data() + pos;
+        auto* l = f + etl::min(count, size() - pos);
         detail::str_replace(f, l, str, next(str, count2));
         return *this;
     }
@@ -845,11 +843,10 @@ public:
 
     constexpr auto replace(size_type pos, size_type count, Char const* str) -> basic_inplace_string&
     {
-        TETL_PRECONDITION(pos < size());
-        TETL_PRECONDITION(pos + count < size());
+        TETL_PRECONDITION(pos <= size());
 
-        auto* f = next(data(), min(pos, size()));
-        auto* l = next(data(), min(pos + count, size()));
+        auto* f = data() + pos;
+        auto* l = f + etl::min(count, size() - pos);
         detail::str_replace(f, l, str, next(str, strlen(str)));
         return *this;
     }
